@@ -75,4 +75,16 @@ TEXT = {
         "note": "Go maps modelled as association lists with distinct keys (invariant proved); map iteration order is an explicit checked parameter; "
                 "KeyOf is a relation (some key holding the value); no axioms.",
     },
+    "C08": {
+        "engine": "heap",
+        "design_ref": "DESIGN.md section 6, C08",
+        "technique": "Coq proof (induction on the copy's fuel with allocation/closedness invariants; reachability frame lemma) + differential correspondence check (clone, then mutate either side)",
+        "text": "clone_val transcribes the two copy() methods. Proved for every heap and every acyclic value: Clone succeeds (C08_total), the clone reads as "
+                "exactly the same tree (C08_equal, hence Equals), the old heap is a prefix of the new one (C08_frame), EVERY container reachable from the clone "
+                "was allocated by the call (C08_fresh), none is reachable from both (C08_disjoint), a value's tree depends only on cells reachable from it "
+                "(C08_reify_frame), and therefore any write to a cell of one side leaves the other unchanged (C08_independent). The check clones random DAG heaps and mutates "
+                "nodes of either side by methods and tree-form writes, comparing the whole reachable heap after every step.",
+        "note": "history clause = C08_independent applied per mutation (every mutator of the model is a write to cells reachable from its receiver; for tree-form writes "
+                "this is exercised dynamically, the per-mutator footprint lemma is proved for Clone and the deriving ops only); no axioms.",
+    },
 }
